@@ -976,8 +976,8 @@ func (g *graph) toGraphInfo(opt *graphCompileOptions, key2SubGraphs map[string]*
 	gInfo := &GraphInfo{
 		CompileOptions: opt.origOpts,
 		Nodes:          make(map[string]GraphNodeInfo, len(g.nodes)),
-		Edges:          gmap.Clone(g.controlEdges),
-		DataEdges:      gmap.Clone(g.dataEdges),
+		Edges:          cloneEdges(g.controlEdges),
+		DataEdges:      cloneEdges(g.dataEdges),
 		Branches: gmap.Map(g.branches, func(startNode string, branches []*GraphBranch) (string, []GraphBranch) {
 			branchInfo := make([]GraphBranch, 0, len(branches))
 			for _, b := range branches {
@@ -1022,7 +1022,7 @@ func (g *graph) toGraphInfo(opt *graphCompileOptions, key2SubGraphs map[string]*
 			Name:             gNode.nodeInfo.name,
 			InputKey:         gNode.cr.nodeInfo.inputKey,
 			OutputKey:        gNode.cr.nodeInfo.outputKey,
-			Mappings:         g.fieldMappingRecords[key],
+			Mappings:         append([]*FieldMapping(nil), g.fieldMappingRecords[key]...),
 		}
 
 		if gi, ok := key2SubGraphs[key]; ok {
@@ -1033,6 +1033,16 @@ func (g *graph) toGraphInfo(opt *graphCompileOptions, key2SubGraphs map[string]*
 	}
 
 	return gInfo
+}
+
+// cloneEdges copies the edge lists as well: the compiled runnable reads the builder's own slices, a
+// compile callback must not be able to write into them.
+func cloneEdges(edges map[string][]string) map[string][]string {
+	ret := make(map[string][]string, len(edges))
+	for start, ends := range edges {
+		ret[start] = append([]string(nil), ends...)
+	}
+	return ret
 }
 
 func (g *graph) onCompileFinish(ctx context.Context, opt *graphCompileOptions, key2SubGraphs map[string]*GraphInfo) {
